@@ -29,6 +29,8 @@ def decl_specs(tier):
             specs.append({'names': [c, 'i2'], 'wrapper': w, 'shared': {}})
         specs.append({'names': ['i1', c], 'wrapper': 'b', 'shared': {'endianness': 'little'}})
     specs.append({'described': True, 'names': []})
+    for c in ('i1', 'i3', 'dn', 'm0', 'b35', 'sn', 'su', 'sr', 'o1', 'r1', 'rs', 'sdn'):
+        specs.append({'names': [c], 'wrapper': 'd'})
     return specs
 
 
